@@ -255,15 +255,18 @@ template <class C> struct Ctx {
       vf_assert(w.data() == data0, 5004);
       vf_assert(g_alloc_calls == alloc0, 5001);
     }
-    if (exc != EXC_NONE) usable();
+#if defined(VF_FAULTS) || defined(VF_USABLE)
+    if (exc != EXC_NONE) usable();   // only where an exception can really occur (keeps the other queries small)
+#endif
   }
   // "remains fully usable": one more mutation succeeds and is observed
   void usable() {
     V &w = *pv;
     uint8_t n = static_cast<uint8_t>(w.size());
-    unsigned id = exc == EXC_FAULT ? 9006 : 8003;
-    if (n > 0) { w.pop_back(); vf_assert(w.size() == n - 1u, id); }
-    else if (w.capacity() > 0 || C::kind != KIND_FIXED) { w.push_back(Elem<E>::make(7)); vf_assert(w.size() == 1 && Elem<E>::val(w.data()[0]) == 7, id); }
+    bool ok;
+    if (n > 0) { w.pop_back(); ok = w.size() == n - 1u; }
+    else { w.push_back(Elem<E>::make(7)); ok = w.size() == 1 && Elem<E>::val(w.data()[0]) == 7; }
+    if (exc == EXC_FAULT) vf_assert(ok, 9006); else vf_assert(ok, 8003);
   }
   void finish() {
     pv->~V();
